@@ -612,7 +612,12 @@ def run_one(cfg, decisions=None, keep_events=False):
                         break
                 probe("schedules_bit_identical" if identical else "schedules_differ_in_last_bits")
         # ---- the public interface against the reference sums -------------------------------
-        if not violations and cfg["dtype"] == "double" and not ambiguous:
+        # (single precision too: the kernel accumulates in float32, so its sums are only good
+        # to about n * eps32 of the magnitude sum; all terms of I(q), V and R are non-negative)
+        atol = 1e-9 if cfg["dtype"] == "double" else max(1e-4, 8 * n_loop * 1.2e-7)
+        if not violations and not ambiguous:
+            if cfg["dtype"] != "double":
+                probe("public_interface_checked_in_single_precision")
             if n_ref == 0:
                 tot = np.zeros(base + 4, np.longdouble)
                 probe("empty_mesh")
@@ -634,8 +639,8 @@ def run_one(cfg, decisions=None, keep_events=False):
             direct_model.call_kernel(kernel, {"scale": 3.0, "background": 7.0}, cutoff=0.0)
             got_iq = direct_model.call_kernel(kernel, dict(pars), cutoff=cutoff)
             denom = np.abs(want_iq) + abs(bkg) + 1e-300
-            if not np.all(agree(got_iq, want_iq, 1e-9 * denom)):
-                i = int(np.argmax(~agree(got_iq, want_iq, 1e-9 * denom)))
+            if not np.all(agree(got_iq, want_iq, atol * denom)):
+                i = int(np.argmax(~agree(got_iq, want_iq, atol * denom)))
                 cause = "truncated_to_le_1_point" if truncated else "value"
                 fail("A2", "call_kernel returns %r at q[%d]; scale*sum(wF^2)/sum(wV)+background over the qualifying "
                      "mesh points is %r (dispersed %r, lengths %r, truncated %r, mesh %d points, %d qualify)"
@@ -653,7 +658,7 @@ def run_one(cfg, decisions=None, keep_events=False):
                     f1 = np.array(tot[1:base:2], np.longdouble)
                     m1 = np.array(mags[-1][1:base:2] if contrib is not None else f1, np.longdouble)
                     got1 = np.array(F1, "d")
-                    if not np.all(agree(got1, np.array(f1 / sw, "d"), 1e-9 * np.array(m1 / sw, "d") + 1e-300)):
+                    if not np.all(agree(got1, np.array(f1 / sw, "d"), atol * np.array(m1 / sw, "d") + 1e-300)):
                         fail("A2", "call_Fq <F> differs from sum(wF)/sum(w)", cause="value")
                 if svs != 0:
                     checks.append(("V_shell", np.array([Vs], "d"), np.array([svs / sw], "d")))
@@ -661,7 +666,7 @@ def run_one(cfg, decisions=None, keep_events=False):
                 if mode:
                     checks.append(("R_eff", np.array([Reff], "d"), np.array([sr / sw], "d")))
                 for nm, got, want in checks:
-                    if not np.all(agree(got, want, 1e-9 * (np.abs(want) + 1e-300))):
+                    if not np.all(agree(got, want, atol * (np.abs(want) + 1e-300))):
                         fail("A2", "call_Fq %s is %r, reference %r" % (nm, got[:3].tolist(), want[:3].tolist()),
                              cause="truncated_to_le_1_point" if truncated else "value")
                         break
